@@ -12,7 +12,7 @@ namespace GoNeat.C09
 open GoNeat Scalar
 variable {W : Type} [Scalar W]
 
-theorem assignQuotas_total (ss : List (Species W)) (skim : W) (tot : Int) :
+theorem assignQuotas_sumA (ss : List (Species W)) (skim : W) (tot : Int) :
     (assignQuotas ss skim tot).2.2 = tot + quotaSum (assignQuotas ss skim tot).1 := by
   induction ss generalizing skim tot with
   | nil => simp [assignQuotas, quotaSum]
@@ -294,7 +294,7 @@ theorem purgeZero_eq (p : Pop W) :
 theorem rawAssign_total (p : Pop W) : (rawAssign p).2 = quotaSum (rawAssign p).1 := by
   unfold rawAssign
   simp only
-  rw [assignQuotas_total]; omega
+  rw [assignQuotas_sumA]; omega
 
 theorem redistribute_quota (sorted1 : List (Species W)) (o : EpochOpts W) (e : Int) (rs : List Nat)
     (sorted2 : List (Species W)) (ehlc : Int) (rs1 : List Nat) (hbs : 0 ≤ o.babiesStolen)
